@@ -12,7 +12,8 @@ contract is: evaluate faithfully or raise).
   R3  mod: Python % takes the sign of the divisor, SQL of the dividend
   R3  NOT IN with a NULL element is NULL (never true) in SQL, True in Python; IN with a NULL element is
       NULL (not FALSE) for a non-member, which shows under NOT (... OR ...)
-  R3  startswith/endswith: '%' and '_' in the operand are LIKE wildcards in SQL, literals in Python
+  R3  startswith/endswith: '%' and '_' in the operand are LIKE wildcards in SQL, literals in Python; with
+      autoescape=True / escape= the operand handed to Python is the escaped pattern (database row updated, object not)
   R4  UPDATE applies SET values to objects whose criteria could not be decided (expired attribute)
   R4  a SET expression that reads an expired attribute stores the _ExpiredObject sentinel as the value
 """
@@ -46,6 +47,11 @@ CASES = [
     ("C43-R3 startswith('a%c'), s = 'abbbc-tail'", dict(s="abbbc-tail"), lambda: A.s.startswith("a%c")),
     ("C43-R3 startswith('a_c'), s = 'abc'", dict(s="abc"), lambda: A.s.startswith("a_c")),
     ("C43-R3 endswith('a_c'), s = 'xabc'", dict(s="xabc"), lambda: A.s.endswith("a_c")),
+    # round 2 (seed-agent observation C08/2, C43): with autoescape / escape the operand the evaluator receives is the
+    # ESCAPED pattern ('a/_b'), which str.startswith compares literally: the row matches in SQL, never in Python
+    ("C43-R3 startswith('a_b', autoescape=True), s = 'a_bc'", dict(s="a_bc"), lambda: A.s.startswith("a_b", autoescape=True)),
+    ("C43-R3 endswith('50%', autoescape=True), s = 'rate 50%'", dict(s="rate 50%"), lambda: A.s.endswith("50%", autoescape=True)),
+    ("C43-R3 startswith('a^_b', escape='^'), s = 'a_bc'", dict(s="a_bc"), lambda: A.s.startswith("a^_b", escape="^")),
 ]
 
 bad = 0
